@@ -2,6 +2,14 @@
  * in-process, one operation per input line, one canonical output line.
  *
  *   parse <udp|tcp|ws> <hex>
+ *   build <proto> <maxsize> <type> <code> <mid> <ops>      (C01) a PDU assembled through the API
+ *   edit  <proto> <maxsize> <wire> <ops>                   (C04) a received PDU edited in place
+ *     <ops> = `-` or `;`-separated calls: T<val> coap_add_token, O<num>:<val> coap_add_option,
+ *             I<num>:<val> coap_insert_option, U<num>:<val> coap_update_option, R<num> coap_remove_option,
+ *             K<val> coap_update_token, D<val> coap_add_data
+ *     <val>/<wire> = hex, `-` (empty) or `*<len>*<seed>` (byte i = (seed + 7 i + 13 (i / 256)) mod 256)
+ *   output: [edit: start=<used_size>.<fnv32(buffer)>] steps=<rc>.<used_size>.<fnv32(buffer)>,… hdr=<n> bytes=<D> built=<accessor dump> reparse=<dump|rej>
+ *           (byte strings longer than 48 bytes as #<len>.<fnv32>.<first 8>..<last 8>)
  */
 #include "coap3/coap_libcoap_build.h"
 #include "hcommon.h"
@@ -41,10 +49,9 @@ static void dump_pdu(const coap_pdu_t *pdu) {
   if (coap_get_data(pdu, &len, &data)) h_puthex(stdout, data, len); else fputc('-', stdout);
 }
 
-static void do_parse(coap_proto_t proto, const uint8_t *data, size_t len) {
-  coap_pdu_t *pdu = coap_pdu_init(0, 0, 0, COAP_DEFAULT_MAX_PDU_RX_SIZE - COAP_PDU_MAX_TCP_HEADER_SIZE);
+/* what reaches the protocol layer for one received unit, parsed into pdu */
+static int parse_into(coap_proto_t proto, const uint8_t *data, size_t len, coap_pdu_t *pdu) {
   int ok = 0;
-  if (!pdu) { printf("fail"); return; }
   if (proto == COAP_PROTO_TCP) {
     /* the framing arithmetic of coap_read_session(): the input must be exactly one frame */
     if (len >= 1) {
@@ -65,8 +72,198 @@ static void do_parse(coap_proto_t proto, const uint8_t *data, size_t len) {
   } else {
     ok = coap_pdu_parse(proto, data, len, pdu);
   }
-  if (ok) dump_pdu(pdu); else printf("rej");
+  return ok;
+}
+
+static void do_parse(coap_proto_t proto, const uint8_t *data, size_t len) {
+  coap_pdu_t *pdu = coap_pdu_init(0, 0, 0, COAP_DEFAULT_MAX_PDU_RX_SIZE - COAP_PDU_MAX_TCP_HEADER_SIZE);
+  if (!pdu) { printf("fail"); return; }
+  if (parse_into(proto, data, len, pdu)) dump_pdu(pdu); else printf("rej");
   coap_delete_pdu(pdu);
+}
+
+/* ---- build / edit (C01, C04) ---- */
+static FILE *OUT;
+static uint32_t fnv32(const uint8_t *b, size_t n) {
+  uint32_t h = 2166136261u;
+  for (size_t i = 0; i < n; i++) { h ^= b[i]; h *= 16777619u; }
+  return h;
+}
+
+static void put_dg(const uint8_t *b, size_t n) {
+  if (n <= 48) { h_puthex(OUT, b, n); return; }
+  fprintf(OUT, "#%zu.%08x.", n, fnv32(b, n));
+  h_puthex(OUT, b, 8); fprintf(OUT, ".."); h_puthex(OUT, b + n - 8, 8);
+}
+
+/* <val>: hex | - | *len*seed ; exact-size heap buffer */
+static uint8_t *get_val(const char *s, size_t *len) {
+  if (s[0] == 0) { *len = 0; return (uint8_t *)malloc(1); }
+  if (s[0] == '*') {
+    char *e; unsigned long n = strtoul(s + 1, &e, 10), seed;
+    if (*e != '*' || e == s + 1) return NULL;
+    char *e2; seed = strtoul(e + 1, &e2, 10);
+    if (*e2 || e2 == e + 1 || n > 9000000) return NULL;
+    uint8_t *b = (uint8_t *)malloc(n ? n : 1);
+    for (unsigned long i = 0; i < n; i++) b[i] = (uint8_t)(seed + 7 * i + 13 * (i / 256));
+    *len = n; return b;
+  }
+  return h_unhex(s, len);
+}
+
+static void dump_pdu_dg(const coap_pdu_t *pdu) {
+  coap_opt_iterator_t oi;
+  coap_opt_t *opt;
+  coap_bin_const_t tok = coap_pdu_get_token(pdu);
+  size_t len = 0; const uint8_t *data = NULL;
+  int first = 1;
+  fprintf(OUT, "t=%d c=%d m=%d tok=", (int)coap_pdu_get_type(pdu), (int)coap_pdu_get_code(pdu), (int)(uint16_t)coap_pdu_get_mid(pdu));
+  put_dg(tok.s, tok.length);
+  fprintf(OUT, " opts=");
+  if (coap_option_iterator_init(pdu, &oi, COAP_OPT_ALL)) {
+    while ((opt = coap_option_next(&oi))) {
+      if (!first) fputc(',', OUT);
+      first = 0;
+      fprintf(OUT, "%u:", (unsigned)oi.number);
+      put_dg(coap_opt_value(opt), coap_opt_length(opt));
+    }
+  }
+  if (first) fputc('-', OUT);
+  fprintf(OUT, " pl=");
+  if (coap_get_data(pdu, &len, &data)) put_dg(data, len); else fputc('-', OUT);
+}
+
+/* one API call; returns 0 on a syntax error */
+static int do_call(coap_pdu_t *pdu, char *op, long *rc) {
+  char k = op[0];
+  char *arg = op + 1;
+  size_t len = 0; uint8_t *v = NULL;
+  unsigned long num = 0;
+  if (k == 'O' || k == 'I' || k == 'U') {
+    char *colon = strchr(arg, ':');
+    char *e;
+    if (!colon) return 0;
+    *colon = 0;
+    num = strtoul(arg, &e, 10);
+    if (*e || e == arg || num > 65535) return 0;
+    arg = colon + 1;
+  }
+  if (k == 'R') {
+    char *e;
+    num = strtoul(arg, &e, 10);
+    if (*e || e == arg || num > 65535) return 0;
+    *rc = coap_remove_option(pdu, (coap_option_num_t)num);
+    return 1;
+  }
+  v = get_val(arg, &len);
+  if (!v) return 0;
+  switch (k) {
+  case 'T': *rc = coap_add_token(pdu, len, v); break;
+  case 'K': *rc = coap_update_token(pdu, len, v); break;
+  case 'D': *rc = coap_add_data(pdu, len, v); break;
+  case 'O': *rc = (long)coap_add_option(pdu, (coap_option_num_t)num, len, v); break;
+  case 'I': *rc = (long)coap_insert_option(pdu, (coap_option_num_t)num, len, v); break;
+  case 'U': *rc = (long)coap_update_option(pdu, (coap_option_num_t)num, len, v); break;
+  default: free(v); return 0;
+  }
+  free(v);
+  return 1;
+}
+
+/* runs the calls on pdu, then serialises for proto and re-parses the bytes */
+static void run_ops(coap_proto_t proto, coap_pdu_t *pdu, char *ops) {
+  int first = 1;
+  size_t hdr;
+  OUT = stdout;
+  /* validate the syntax of the whole script first so that nothing is printed for a bad line */
+  if (strcmp(ops, "-")) {
+    char *copy = strdup(ops), *sv = NULL;
+    for (char *op = strtok_r(copy, ";", &sv); op; op = strtok_r(NULL, ";", &sv)) {
+      if (!strchr("TKDOIUR", op[0]) || !op[0]) { free(copy); printf("bad-op"); return; }
+    }
+    free(copy);
+  }
+  printf("steps=");
+  if (strcmp(ops, "-")) {
+    char *sv = NULL;
+    for (char *op = strtok_r(ops, ";", &sv); op; op = strtok_r(NULL, ";", &sv)) {
+      long rc = -1;
+      if (!do_call(pdu, op, &rc)) { printf("%sbad-op", first ? "" : ","); return; }
+      printf("%s%ld.%zu.%08x", first ? "" : ",", rc, pdu->used_size, fnv32(pdu->token, pdu->used_size));
+      first = 0;
+    }
+  }
+  if (first) fputc('-', stdout);
+  /* accessor dump of the PDU as built, before the header is encoded */
+  {
+    /* printed after hdr/bytes, so buffer it: dump now into a memory stream */
+    char *mem = NULL; size_t memlen = 0;
+    FILE *ms = open_memstream(&mem, &memlen);
+    OUT = ms;
+    dump_pdu_dg(pdu);
+    OUT = stdout;
+    fclose(ms);
+    hdr = coap_pdu_encode_header(pdu, proto);
+    printf(" hdr=%zu bytes=", hdr);
+    if (!hdr) {
+      printf("- built=%s reparse=rej", mem);
+      free(mem);
+      return;
+    }
+    put_dg(pdu->token - hdr, hdr + pdu->used_size);
+    printf(" built=%s reparse=", mem);
+    free(mem);
+  }
+  {
+    /* the serialised bytes go through the same path as `parse`, from an exact-size copy */
+    size_t n = hdr + pdu->used_size;
+    uint8_t *wire = (uint8_t *)malloc(n ? n : 1);
+    coap_pdu_t *rp = coap_pdu_init(0, 0, 0, COAP_DEFAULT_MAX_PDU_RX_SIZE - COAP_PDU_MAX_TCP_HEADER_SIZE);
+    memcpy(wire, pdu->token - hdr, n);
+    if (!rp) { printf("fail"); free(wire); return; }
+    if (parse_into(proto, wire, n, rp)) { printf("ok "); dump_pdu_dg(rp); } else printf("rej");
+    coap_delete_pdu(rp);
+    free(wire);
+  }
+}
+
+static int get_num(const char *s, unsigned long *out) {
+  char *e;
+  if (!*s) return 0;
+  *out = strtoul(s, &e, 10);
+  return *e == 0;
+}
+
+static void do_build(char **w) {
+  coap_proto_t p = proto_of(w[1]);
+  unsigned long ms, t, c, m;
+  coap_pdu_t *pdu;
+  if (p == COAP_PROTO_NONE || !get_num(w[2], &ms) || !get_num(w[3], &t) || !get_num(w[4], &c) || !get_num(w[5], &m) ||
+      t > 3 || c > 255 || m > 65535) { printf("bad-op"); return; }
+  pdu = coap_pdu_init((coap_pdu_type_t)t, (coap_pdu_code_t)c, (coap_mid_t)m, ms);
+  if (!pdu) { printf("fail"); return; }
+  run_ops(p, pdu, w[6]);
+  coap_delete_pdu(pdu);
+}
+
+static void do_edit(char **w) {
+  coap_proto_t p = proto_of(w[1]);
+  unsigned long ms;
+  size_t len; uint8_t *wire;
+  coap_pdu_t *pdu;
+  if (p == COAP_PROTO_NONE || !get_num(w[2], &ms)) { printf("bad-op"); return; }
+  wire = get_val(w[3], &len);
+  if (!wire) { printf("bad-op"); return; }
+  pdu = coap_pdu_init(0, 0, 0, ms);
+  if (!pdu) { printf("fail"); free(wire); return; }
+  if (!parse_into(p, wire, len, pdu)) printf("rej");
+  else {
+    /* digest of the buffer the edits start from (so that 'a refused call changes nothing' is observable per call) */
+    printf("start=%zu.%08x ", pdu->used_size, fnv32(pdu->token, pdu->used_size));
+    run_ops(p, pdu, w[4]);
+  }
+  coap_delete_pdu(pdu);
+  free(wire);
 }
 
 static void step(char *line) {
@@ -80,6 +277,8 @@ static void step(char *line) {
     free(b);
     return;
   }
+  if (n == 7 && !strcmp(w[0], "build")) { do_build(w); return; }
+  if (n == 5 && !strcmp(w[0], "edit")) { do_edit(w); return; }
   printf("bad-op");
 }
 
